@@ -3,6 +3,7 @@
 package fsmworld
 
 import (
+	"encoding/json"
 	"fmt"
 	"math/rand/v2"
 	"sort"
@@ -92,6 +93,7 @@ func (C15) Generate(rng *rand.Rand, tier string, runIdx uint64) simkit.Plan {
 		p.Cfg.Perm = append(p.Cfg.Perm, int(rng.Uint32()>>1))
 	}
 	n := 3 + rng.IntN(22)
+	caseVariants := simkit.Chance(rng, 30)
 	// most runs speak an http-like protocol so routers and splitters are admissible
 	if simkit.Chance(rng, 70) {
 		p.Steps = append(p.Steps, Step{Op: "ce.upsert", Text: mustJSON(M{"Kind": "proxy-defaults", "Name": "global", "Config": M{"protocol": "http"}})})
@@ -99,6 +101,15 @@ func (C15) Generate(rng *rand.Rand, tier string, runIdx uint64) simkit.Plan {
 	for len(p.Steps) < n {
 		op := []string{"ce.upsert", "ce.upsert-cas", "ce.delete", "ce.delete-cas", "ce.upsert-status-cas"}[simkit.Weighted(rng, []int{60, 10, 20, 5, 7})]
 		s := Step{Op: op, Text: g.chainEntryJSON()}
+		if caseVariants && simkit.Chance(rng, 15) {
+			// the table keys entries by lower-cased name: "Web" replaces "web"
+			var m M
+			json.Unmarshal([]byte(s.Text), &m)
+			if n, _ := m["Name"].(string); n != "" && m["Kind"] != "proxy-defaults" && m["Kind"] != "mesh" {
+				m["Name"] = strings.ToUpper(n[:1]) + n[1:]
+				s.Text = mustJSON(m)
+			}
+		}
 		if strings.HasSuffix(op, "-cas") {
 			s.Idx = g.symIdx()
 		}
